@@ -16,6 +16,7 @@ FUNCTIONS = ['cflib.localization.lighthouse_types:Pose.rotate_translate', 'cflib
              'cflib.localization.lighthouse_types:Pose.__init__']
 STUBS = ['numpy object arrays of symbolic reals (np.dot, np.transpose, elementwise + - * run as compiled numpy loops over Python objects)']
 ASSUMPTIONS = ['decided over the real numbers (float rounding of the matrix products is outside)',
+               'point_inverse[inv] takes both R^T R = I and R R^T = I as the definition of an orthogonal matrix',
                'rotation matrices: any 3x3 real matrix with R^T R = I (solver assumption)']
 OUTSIDE = ['V1<->V2<->Cartesian<->projection conversions (transcendental: atan/tan/asin; cvc5 QF_NRAT cannot prove even atan(tan h) = h)',
            'unit length of the float32 Cartesian vector, rotation-vector and quaternion views (compiled scipy)',
@@ -23,14 +24,34 @@ OUTSIDE = ['V1<->V2<->Cartesian<->projection conversions (transcendental: atan/t
 EXPLANATION = 'C15 (restricted): inverse, composition/associativity, sequential-application and orthonormality-preservation laws of Pose ' \
               'as NRA obligations; inputs unmodified.'
 
-PROVE = dict(prove_order='cvc5', prove_timeout=600, prove_z3_timeout=20)
+PROVE = dict(prove_order='z3', prove_timeout=300, prove_z3_timeout=30)
 
 
-def rot(sym, name):
+def chain(sym, terms, what):
+    """Prove terms[0] == terms[-1] through the given intermediate forms: each link is one small obligation (a pure
+    polynomial identity, or one substitution of the assumed orthonormality equations); proven links become assumptions,
+    so the final equality is immediate.  Direct NRA queries for the composite statements take cvc5 minutes to half an hour;
+    the links are decided by z3 in milliseconds."""
+    for a, b in zip(terms, terms[1:]):
+        sym.prove(sym.close(a, b), what + ' (link)')
+    sym.prove(sym.close(terms[0], terms[-1]), what)
+
+
+def gram(R):
+    """R^T R as terms over the entries of R."""
+    return [[sum(R[k][i] * R[k][j] for k in range(3)) for j in range(3)] for i in range(3)]
+
+
+def rot(sym, name, rows_too=False):
+    """A 3x3 orthogonal matrix: 9 reals with R^T R = I assumed.  rows_too: R R^T = I is assumed as well (for a square real
+    matrix the two are equivalent by a theorem of linear algebra; deriving one from the other is a hard NRA query that no
+    installed solver finishes, so the harness that needs the row form takes it as part of the definition)."""
     R = [[sym.real(f'{name}{i}{j}', -1, 1) for j in range(3)] for i in range(3)]
     for i in range(3):
         for j in range(i, 3):
             sym.constrain_eq(sum(R[k][i] * R[k][j] for k in range(3)), 1.0 if i == j else 0.0)
+            if rows_too:
+                sym.constrain_eq(sum(R[i][k] * R[j][k] for k in range(3)), 1.0 if i == j else 0.0)
     return R
 
 
@@ -58,13 +79,20 @@ def unchanged(snap, *poses):
 def h_point_inverse(sym):
     """inv_rotate_translate undoes rotate_translate and vice versa, for every orthogonal R, translation and point."""
     sym.B.update(PROVE)
-    A = Pose(rot(sym, 'r'), vec(sym, 't'))
+    fwd_first = sym.B['direction'] == 'fwd'
+    A = Pose(rot(sym, 'r', rows_too=not fwd_first), vec(sym, 't'))
     p = vec(sym, 'p')
     snap = snapshot(A)
-    fwd_first = sym.B['direction'] == 'fwd'
+    R = [list(r) for r in A.rot_matrix]
     q = A.inv_rotate_translate(A.rotate_translate(p)) if fwd_first else A.rotate_translate(A.inv_rotate_translate(p))
+    if fwd_first:
+        M = gram(R)                                                    # R^T R
+    else:
+        M = [[sum(R[i][k] * R[j][k] for k in range(3)) for j in range(3)] for i in range(3)]       # R R^T
+    t = list(A.translation)
     for i in range(3):
-        sym.prove(sym.close(q[i], p[i]), f'component {i} returns to the original point')
+        mid = sum(M[i][k] * p[k] for k in range(3)) if fwd_first else sum(M[i][k] * (p[k] - t[k]) for k in range(3)) + t[i]
+        chain(sym, [q[i], mid, p[i]], f'component {i} returns to the original point')
     unchanged(snap, A)
     sym.goal('proved')
 
@@ -76,14 +104,16 @@ def h_pose_inverse(sym):
     B = Pose(anymat(sym, 'b'), vec(sym, 'bt'))
     snap = snapshot(A, B)
     C = A.inv_rotate_translate_pose(A.rotate_translate_pose(B))
+    M = gram([list(r) for r in A.rot_matrix])
+    bt, bR = list(B.translation), [list(r) for r in B.rot_matrix]
     part = sym.B['part']
     if part == 't':
         for i in range(3):
-            sym.prove(sym.close(C.translation[i], B.translation[i]), f'translation {i}')
+            chain(sym, [C.translation[i], sum(M[i][k] * bt[k] for k in range(3)), bt[i]], f'translation {i}')
     else:
         i = int(part)
         for j in range(3):
-            sym.prove(sym.close(C.rot_matrix[i][j], B.rot_matrix[i][j]), f'rotation [{i}][{j}]')
+            chain(sym, [C.rot_matrix[i][j], sum(M[i][k] * bR[k][j] for k in range(3)), bR[i][j]], f'rotation [{i}][{j}]')
     unchanged(snap, A, B)
     sym.goal('proved')
 
@@ -122,8 +152,13 @@ def h_compose_orthonormal(sym):
     A = Pose(rot(sym, 'a'), vec(sym, 'at'))
     B = Pose(rot(sym, 'b'), vec(sym, 'bt'))
     R = A.rotate_translate_pose(B).rot_matrix
+    a, b = [list(r) for r in A.rot_matrix], [list(r) for r in B.rot_matrix]
+    M = gram(a)
     i, j = sym.B['entry']
-    sym.prove(sym.close(sum(R[k][i] * R[k][j] for k in range(3)), 1.0 if i == j else 0.0), f'(R^T R)[{i}][{j}]')
+    chain(sym, [sum(R[k][i] * R[k][j] for k in range(3)),
+                sum(b[l][i] * M[l][m] * b[m][j] for l in range(3) for m in range(3)),       # B^T (A^T A) B
+                sum(b[l][i] * b[l][j] for l in range(3)),                                   # B^T B
+                1.0 if i == j else 0.0], f'((AB)^T (AB))[{i}][{j}]')
     sym.goal('proved')
 
 
@@ -141,15 +176,15 @@ def h_scale(sym):
 
 
 HARNESSES = [
-    Harness('point_inverse[fwd]', h_point_inverse, quick=dict(direction='fwd'), float_model='real', goals=('proved',), timeout=(900, 2400), per_path=2400),
-    Harness('point_inverse[inv]', h_point_inverse, quick=dict(direction='inv'), float_model='real', goals=('proved',), timeout=(900, 2400), per_path=2400,
-            tiers=('thorough',)),
-    Harness('pose_inverse[t]', h_pose_inverse, quick=dict(part='t'), float_model='real', goals=('proved',), timeout=(900, 2400), per_path=2400),
-] + [Harness(f'pose_inverse[R{i}]', h_pose_inverse, quick=dict(part=str(i)), float_model='real', goals=('proved',), timeout=(900, 2400),
-             per_path=2400, tiers=('quick', 'thorough') if i == 0 else ('thorough',)) for i in range(3)] + [
+    Harness('point_inverse[fwd]', h_point_inverse, quick=dict(direction='fwd'), float_model='real', goals=('proved',), timeout=(300, 900), per_path=900),
+    Harness('point_inverse[inv]', h_point_inverse, quick=dict(direction='inv'), float_model='real', goals=('proved',), timeout=(300, 900), per_path=900,
+),
+    Harness('pose_inverse[t]', h_pose_inverse, quick=dict(part='t'), float_model='real', goals=('proved',), timeout=(300, 900), per_path=900),
+] + [Harness(f'pose_inverse[R{i}]', h_pose_inverse, quick=dict(part=str(i)), float_model='real', goals=('proved',), timeout=(300, 900),
+             per_path=900, tiers=('quick', 'thorough') if i == 0 else ('thorough',)) for i in range(3)] + [
     Harness('associativity', h_assoc, float_model='real', goals=('proved',), timeout=(300, 900), per_path=900),
 ] + [Harness(f'compose_orthonormal[{i}{j}]', h_compose_orthonormal, quick=dict(entry=(i, j)), float_model='real', goals=('proved',),
-             timeout=(900, 2400), per_path=2400, tiers=('quick', 'thorough') if (i, j) in ((0, 0), (0, 1)) else ('thorough',))
+             timeout=(300, 900), per_path=900, tiers=('quick', 'thorough') if (i, j) in ((0, 0), (0, 1)) else ('thorough',))
      for i in range(3) for j in range(i, 3)] + [
     Harness('scale', h_scale, float_model='real', goals=('proved',), timeout=(120, 300)),
 ]
